@@ -256,6 +256,32 @@ def gen_edits(frame: bytes, thorough: bool):
             yield ("ins", i, y), frame[:i] + bytes([y]) + frame[i:]
 
 
+def structural_regions(frame: bytes):
+    """positions of the structural bytes of a frame: the BeginString field, the BodyLength field
+    (each with its SOH) and the trailer  x SOH 1 0 = d d d SOH  (one byte of the last value included)"""
+    a = frame.find(SOH)
+    b = frame.find(SOH, a + 1)
+    t = frame.rfind(b"\x0110=")
+    pos = set(range(0, b + 1)) | set(range(max(t - 1, 0), len(frame)))
+    return sorted(pos)
+
+
+def gen_structural_edits(frame: bytes):
+    """EVERY single-byte insertion / substitution (all 256 byte values) and deletion at every structural position
+    (and insertion behind the last byte)"""
+    pos = structural_regions(frame)
+    for i in pos:
+        x = frame[i]
+        for y in range(256):
+            yield ("ins", i, y), frame[:i] + bytes([y]) + frame[i:]
+            if y != x:
+                yield ("sub", i, y), frame[:i] + bytes([y]) + frame[i + 1:]
+        yield ("del", i, x), frame[:i] + frame[i + 1:]
+    n = len(frame)
+    for y in range(256):
+        yield ("ins", n, y), frame + bytes([y])
+
+
 def chunkings(rng, stream: bytes, k: int):
     """k partitions of the stream into non-empty reads"""
     out = [[stream]]
@@ -441,13 +467,296 @@ def check_reader(m: bytes):
         fails.append({"signature": "C10-reader-blocked", "what": "valid frames that follow a malformed input are never delivered "
                       "(%d valid frames, %d bytes sent after it; %d bytes left in the buffer)" % (len(frames), sum(map(len, frames)), len(buf)),
                       "input": inp, "expected": "the last valid frame is delivered", "observed": rep[:160]})
+    whole = b"".join(chunks)
     for f in frames:
-        if raws.count(f) > 1:
+        if raws.count(f) > whole.count(f):
             fails.append({"signature": "C10-duplicate-delivery", "what": "a valid frame was delivered more than once",
-                          "input": inp, "expected": "at most once", "observed": "count=%d" % raws.count(f)})
+                          "input": inp, "expected": "as often as it was sent (%d)" % whole.count(f), "observed": "count=%d" % raws.count(f)})
             break
     lost = sum(1 for f in frames if f not in raws)
     return ("ok" if not fails else "fail") + (":lost%d" % min(lost, 3) if lost else ""), fails
+
+
+# ------------------------------------------------------------------ reader with a processing step that raises
+def run_reader_p(chunks, max_steps=MAX_DELIVERIES):
+    """the REAL socket_read_task with a `_process_message` that records the delivery and then raises for messages
+    carrying tag 9999 (as `_validate_integrity` does for a duplicated header tag).  Reply comparable with the
+    driver's `codec.feedp`:  buf <hex> <flag> E<exceptions logged> D …"""
+    import asyncio
+
+    from asyncfix.connection import AsyncFIXConnection, ConnectionState
+    from asyncfix.journaler import Journaler
+
+    logging.disable(logging.CRITICAL)
+    delivered, flag, exc = [], ["-"], [0]
+
+    class _Rd:
+        def __init__(self):
+            self.chunks = list(chunks)
+
+        async def read(self, n):
+            if not self.chunks:
+                raise asyncio.CancelledError()
+            return self.chunks.pop(0)
+
+    class ProcError(Exception):
+        pass
+
+    class Conn(AsyncFIXConnection):
+        async def _process_message(self, msg, raw):
+            delivered.append((str(msg.msg_type), K.tok_tree(K.tree_of(msg)), raw))
+            if len(delivered) > max_steps:
+                flag[0] = "stalled"
+                raise asyncio.CancelledError()
+            if "9999" in msg:
+                raise ProcError("processing failed")
+
+    conn = Conn(K.proto(), "S", "T", Journaler(), "h", 1, 30)
+    conn._connection_state = ConnectionState.ACTIVE
+    conn._socket_reader = _Rd()
+
+    class _Lg:
+        def exception(self, *a, **k):
+            import sys
+            e = sys.exc_info()[1]
+            if isinstance(e, ProcError):
+                exc[0] += 1
+            else:
+                if flag[0] == "-":
+                    flag[0] = "raised:" + type(e).__name__
+                conn._socket_reader.chunks.clear()
+
+        def debug(self, *a, **k):
+            pass
+        info = warning = error = debug
+
+    conn.log = _Lg()
+    asyncio.run(conn.socket_read_task())
+    ds = "".join(" D %s %s %s" % (C.cp(mt), ct, C.cp(raw)) for mt, ct, raw in delivered)
+    return "buf %s %s E%d%s" % (C.cp(conn._msg_buffer), flag[0], exc[0], ds)
+
+
+def gen_proc_stream(rng):
+    """valid frames, some of which make processing raise (9999=…), corrupted and malformed ones, chunked"""
+    parts = []
+    for i in range(rng.randint(1, 7)):
+        r = rng.random()
+        if r < 0.45:
+            parts.append(valid_frame(i + 1))
+        elif r < 0.75:
+            parts.append(valid_frame(i + 1, ["9999=%d" % i] + (["58=x"] if rng.random() < 0.5 else [])))
+        elif r < 0.9:
+            parts.append(corrupt_safely(rng, valid_frame(i + 1, ["9999=1"] if rng.random() < 0.5 else [])))
+        else:
+            parts.append(gen_malformed(rng)[1][:200])
+    stream = b"".join(parts)
+    n = len(stream)
+    cuts = sorted(set(rng.randrange(1, n) for _ in range(rng.choice([0, 0, 1, 2, 4, 9])))) if n > 1 else []
+    chunks = K.split_at(stream, cuts)
+    for j in range(rng.randint(0, 3)):
+        chunks.append(valid_frame(100 + j))
+    return [c for c in chunks if c]
+
+
+# ------------------------------------------------------------------ live connection (real _process_message)
+LIVE_TIME = "52=20240101-00:00:00.000"
+
+
+def live_frame(seq, fields, sender="INITIATOR", target="ACCEPTOR", mtype="D") -> bytes:
+    head = ([] if mtype is None else ["35=" + mtype]) + ["49=" + sender, "56=" + target, "34=%s" % seq, LIVE_TIME]
+    return K.ref_frame(head + list(fields))
+
+
+def live_run(chunks):
+    """Feed the reads to a REAL logged-on-able acceptor connection: real socket_read_task, real decode, real
+    _process_message / _validate_integrity / journal; only the transport and the application hooks are stubs.
+    Returns {"state", "delivered": [ClOrdID…], "buf": bytes left, "max_buf", "exceptions": n, "sent": n}"""
+    import asyncio
+
+    from asyncfix import FTag
+    from asyncfix.connection import AsyncFIXConnection, ConnectionState
+    from asyncfix.journaler import Journaler
+
+    logging.disable(logging.CRITICAL)
+    out = {"delivered": [], "exceptions": 0, "sent": 0, "max_buf": 0, "disconnected": False}
+
+    class _Rd:
+        def __init__(self, conn):
+            self.chunks = list(chunks)
+            self.conn = conn
+
+        async def read(self, n):
+            out["max_buf"] = max(out["max_buf"], len(self.conn._msg_buffer))
+            if not self.chunks:
+                raise asyncio.CancelledError()
+            return self.chunks.pop(0)
+
+    class _Wr:
+        def write(self, b):
+            out["sent"] += 1
+
+        async def drain(self):
+            pass
+
+        def close(self):
+            pass
+
+        async def wait_closed(self):
+            pass
+
+        def get_extra_info(self, *_):
+            return None
+
+    class _Lg:
+        def exception(self, *a, **k):
+            out["exceptions"] += 1
+
+        def debug(self, *a, **k):
+            pass
+        info = warning = error = debug
+
+    class App(AsyncFIXConnection):
+        async def on_connect(self):
+            pass
+
+        async def on_message(self, msg):
+            out["delivered"].append(msg.get(FTag.ClOrdID, "?"))
+
+        async def on_disconnect(self):
+            out["disconnected"] = True
+            raise asyncio.CancelledError()
+
+    conn = App(K.proto(), "ACCEPTOR", "INITIATOR", Journaler(), "h", 1, 30)
+    conn.log = _Lg()
+    conn._socket_reader = _Rd(conn)
+    conn._socket_writer = _Wr()
+    conn._connection_state = ConnectionState.NETWORK_CONN_ESTABLISHED
+
+    async def main():
+        try:
+            await conn.socket_read_task()
+        except asyncio.CancelledError:
+            pass
+
+    asyncio.run(main())
+    out["state"] = conn._connection_state.name
+    out["buf"] = bytes(conn._msg_buffer)
+    return out
+
+
+SAFE_INSERT = [y for y in range(256) if y not in (0, 1)]
+
+
+def corrupt_safely(rng, frame: bytes) -> bytes:
+    """one-byte corruption that cannot disturb the FRAMING of what follows: a substitution inside a field value or
+    the CheckSum digits, or an insertion of a non-NUL, non-SOH byte inside a value / among or behind the CheckSum
+    digits (BodyLength then covers the frame minus its last byte: the stray SOH is skipped as garbage)"""
+    b2 = frame.find(SOH, frame.find(SOH) + 1)
+    pos = []          # positions of value bytes after the BodyLength field
+    i = b2 + 1
+    while i < len(frame):
+        j = frame.find(SOH, i)
+        eq = frame.find(b"=", i, j)
+        pos += list(range(eq + 1, j))
+        i = j + 1
+    if rng.random() < 0.5:
+        k = rng.choice(pos)
+        y = rng.choice([c for c in range(256) if c not in (1, frame[k])])
+        return frame[:k] + bytes([y]) + frame[k + 1:]
+    k = rng.choice(pos + [len(frame) - 1] * 3)   # also right in front of the final SOH
+    return frame[:k] + bytes([rng.choice(SAFE_INSERT)]) + frame[k:]
+
+
+LIVE_KINDS = ["valid", "valid", "valid", "corrupt", "corrupt", "dup49", "dup56", "dup34", "dup8", "no35",
+              "seq_nonnumeric", "no49", "bad_compid", "seq_low"]
+
+
+def gen_live(rng):
+    """a stream for the live connection: Logon, then valid / corrupted / decoder-valid-but-unprocessable frames,
+    arbitrary chunking, then flush reads of valid frames.  Returns (chunks, expected deliveries, description)"""
+    seq = 1
+    frames = [live_frame(seq, ["98=0", "108=30"], mtype="A")]
+    seq += 1
+    expected, kinds = [], []
+    raising = 0
+    alive = True
+    for i in range(rng.randint(2, 8)):
+        kind = rng.choice(LIVE_KINDS)
+        if kind in ("seq_nonnumeric", "no49", "bad_compid", "seq_low") and rng.random() < 0.8:
+            kind = "valid"
+        kinds.append(kind)
+        tag = "%s%d" % (kind[0].upper(), i)
+        body = ["11=" + tag, "55=VOD.L", "54=1", "38=100"]
+        if kind == "valid":
+            frames.append(live_frame(seq, body))
+            if alive:
+                expected.append(tag)
+            seq += 1
+        elif kind == "corrupt":
+            frames.append(corrupt_safely(rng, live_frame(seq, ["11=X%d" % i] + body[1:])))
+            raising += 1        # the read loop stops at a rejected frame until the next read
+        elif kind in ("dup49", "dup56", "dup34", "dup8"):
+            extra = {"dup49": "49=INITIATOR", "dup56": "56=ACCEPTOR", "dup34": "34=%d" % seq, "dup8": "8=FIX.4.4"}[kind]
+            body.insert(rng.randint(0, len(body)), extra)
+            frames.append(live_frame(seq, body))
+            raising += 1
+        elif kind == "no35":
+            frames.append(live_frame(seq, body, mtype=None))
+            if alive:
+                expected.append(tag)
+            seq += 1
+        else:
+            # the connection answers these by disconnecting: nothing after them is expected
+            if kind == "seq_nonnumeric":
+                frames.append(live_frame("x%d" % seq, body))
+            elif kind == "no49":
+                frames.append(K.ref_frame(["35=D", "56=ACCEPTOR", "34=%d" % seq, LIVE_TIME] + body))
+            elif kind == "bad_compid":
+                frames.append(live_frame(seq, body, sender="SOMEONE"))
+            else:
+                frames.append(live_frame(1, body))
+            alive = False
+    stream = b"".join(frames)
+    n = len(stream)
+    cuts = sorted(set(rng.randrange(1, n) for _ in range(rng.choice([0, 1, 2, 3, 6, 12]))))
+    chunks = K.split_at(stream, cuts)
+    # the inner loop of socket_read_task leaves at every rejected frame and at every processing exception, what is
+    # buffered behind it is looked at on the next read: one flush read per such frame, plus two
+    for j in range(raising + 2):
+        tag = "F%d" % j
+        chunks.append(live_frame(seq, ["11=" + tag, "55=VOD.L"]))
+        if alive:
+            expected.append(tag)
+        seq += 1
+    return chunks, expected, {"kinds": kinds, "disconnecting": not alive}
+
+
+def live_clauses(res, expected, disconnecting):
+    """oracle clauses of one live run; yields (signature, what, observed)"""
+    got = res["delivered"]
+    if any(t.startswith("X") for t in got):
+        yield ("C10-live-corrupted-frame-delivered", "a corrupted frame was delivered to the application", got)
+    if any(got.count(t) > 1 for t in got):
+        yield ("C10-live-duplicate-delivery", "a frame was delivered more than once", got)
+    if not disconnecting and res["state"] != "ACTIVE":
+        yield ("C10-live-unexpected-disconnect", "the connection did not stay ACTIVE although no frame called for a disconnect",
+               res["state"])
+    clean = [t for t in got if not t.startswith("X")]
+    if clean != expected and not (disconnecting and res["state"] == "ACTIVE"):
+        yield ("C10-live-valid-frame-not-delivered", "valid frames that follow a malformed / unprocessable frame were not "
+               "delivered exactly once, in order", "expected %s got %s (state %s, %d bytes buffered, %d exceptions)"
+               % (expected, got, res["state"], len(res["buf"]), res["exceptions"]))
+    if len(res["buf"]) != 0:
+        yield ("C10-live-buffer-not-drained", "bytes of already handled frames stay in the receive buffer (it grows with "
+               "every read)", "%d bytes left, max %d" % (len(res["buf"]), res["max_buf"]))
+
+
+def check_live(chunks, expected, disconnecting, desc=None):
+    res = live_run(chunks)
+    inp = {"kind": "live", "chunks": [c.hex() for c in chunks], "expected": expected, "disconnecting": disconnecting,
+           "frames": desc}
+    return res, [{"signature": sig, "what": what, "input": inp, "expected": "delivered == %s, buffer empty" % expected,
+                  "observed": str(obs)[:300]} for sig, what, obs in live_clauses(res, expected, disconnecting)]
 
 
 # ------------------------------------------------------------------ branch classification (distribution)
@@ -504,6 +813,14 @@ def build_inputs(ctx, rng, n_arb, n_mal, n_frames_edit, thorough):
             if pos >= len(f) - 9:
                 # the next frame has only partly arrived (marker, but not yet an SOH)
                 items.append(("edit:%s+partial-next" % op, e + nxt[:9]))
+    # every byte value at every structural position (BeginString, BodyLength, trailer)
+    order = sorted(range(len(frames)), key=lambda i: len(frames[i]))
+    for fi in order[: (len(frames) if thorough else 3)]:
+        f = frames[fi]
+        for (op, pos, y), e in gen_structural_edits(f):
+            items.append(("struct:%s" % op, e))
+            if pos >= len(f) - 9:
+                items.append(("struct:%s+next" % op, e + nxt))
     return items, frames
 
 
@@ -562,7 +879,7 @@ def correspondence(ctx):
     # --- live reader: malformed input followed by valid frames, several chunkings
     rd_items = [it for it in items if it[0].startswith(("corpus", "malformed"))]
     arb = [it for it in items if it[0] == "arbitrary"]
-    edits = [it for it in items if it[0].startswith("edit")]
+    edits = [it for it in items if it[0].startswith(("edit", "struct"))]
     rd_items += rng.sample(arb, min(len(arb), ctx.n(2500, 25000)))
     rd_items += rng.sample(edits, min(len(edits), ctx.n(2500, 25000)))
     v1, v2 = valid_frame(1), valid_frame(2, ["58=hello"])
@@ -589,6 +906,20 @@ def correspondence(ctx):
         lab, chunks = rd_cases[len(rd_cases) // 2]
         samples.append({"input": {"feed": [c.hex() for c in chunks], "label": lab}, "model": K.run_reader(chunks, max_steps=MAX_DELIVERIES)[:160]})
 
+    # --- reader whose processing step raises (buffer must be advanced before processing)
+    pcases = [gen_proc_stream(rng) for _ in range(ctx.n(3000, 30000))]
+    pcases = [c for c in pcases if c]
+    proc_exc = {}
+    model = drv.batch(["codec.feedp " + " ".join(C.cp(c) for c in chunks) for chunks in pcases])
+    for chunks, ml in zip(pcases, model):
+        il = run_reader_p(chunks)
+        n_eval += 1
+        k = il.split(" ")[3]
+        proc_exc[k] = proc_exc.get(k, 0) + 1
+        if il != ml:
+            dis.append({"input": {"kind": "feedp", "chunks": [c.hex() for c in chunks]}, "model": ml[:300], "impl": il[:300]})
+    if pcases:
+        samples.append({"input": {"feedp": [c.hex() for c in pcases[0]]}, "model": model[0][:160]})
     ctx.note("reader correspondence done at %.1fs" % ctx.elapsed())
     tot = sum(branches.values()) or 1
     dist = {
@@ -598,6 +929,8 @@ def correspondence(ctx):
                                        for b in sorted({k.split("/")[1] for k in branches})},
         "reader_runs": len(rd_cases),
         "reader_outcomes": reader_flags,
+        "reader_with_raising_processing_runs": len(pcases),
+        "reader_with_raising_processing_exceptions_logged": dict(sorted(proc_exc.items())),
     }
     return {
         "evaluations": n_eval,
@@ -646,7 +979,7 @@ def oracle(ctx, disagreements, broken):
         inp = d["input"]
         if inp.get("kind") == "decode":
             todo.append(("disagreement", bytes.fromhex(inp["raw"])))
-        elif inp.get("kind") == "feed":
+        elif inp.get("kind") in ("feed", "feedp"):
             todo.append(("disagreement", b"".join(bytes.fromhex(c) for c in inp["chunks"])))
 
     # 3 corpus + sample (larger when something is broken)
@@ -667,6 +1000,14 @@ def oracle(ctx, disagreements, broken):
             if pos >= len(f) - 9:
                 todo.append(("edit+next", e + nxt[:9]))
                 todo.append(("edit+next", e + nxt[:6]))
+    # every byte value at every structural position of the two shortest corpus frames (all five when broken)
+    order = sorted(range(len(frames)), key=lambda i: len(frames[i]))
+    for fi in order[: (5 if broken else 2)]:
+        f = frames[fi]
+        for (op, pos, y), e in gen_structural_edits(f):
+            todo.append(("struct", e))
+            if pos >= len(f) - 9:
+                todo.append(("struct+next", e + nxt))
     seen = set()
     for lab, raw in todo:
         if raw in seen:
@@ -679,12 +1020,25 @@ def oracle(ctx, disagreements, broken):
     rd = [raw for lab, raw in todo if lab in ("disagreement", "corpus")]
     pool = [raw for lab, raw in todo if lab in ("malformed", "arbitrary")]
     rd += rng.sample(pool, min(len(pool), ctx.n(600, 6000) * (5 if broken else 1)))
-    pool = [raw for lab, raw in todo if lab == "edit"]
+    pool = [raw for lab, raw in todo if lab in ("edit", "struct")]
     rd += rng.sample(pool, min(len(pool), ctx.n(300, 3000) * (5 if broken else 1)))
     for m in rd:
         outcome, fs = check_reader(m)
         stats["reader_checks"] += 1
         stats["reader_outcomes"][outcome] = stats["reader_outcomes"].get(outcome, 0) + 1
+        failures += fs
+
+    # 5 live connection with the real _process_message: valid, corrupted and unprocessable frames mixed, any chunking
+    stats["live_runs"] = 0
+    stats["live_final_states"] = {}
+    stats["live_frame_kinds"] = {}
+    for _ in range(ctx.n(1500, 15000) * (4 if broken else 1)):
+        chunks, expected, meta = gen_live(rng)
+        res, fs = check_live(chunks, expected, meta["disconnecting"], meta["kinds"])
+        stats["live_runs"] += 1
+        stats["live_final_states"][res["state"]] = stats["live_final_states"].get(res["state"], 0) + 1
+        for k in meta["kinds"]:
+            stats["live_frame_kinds"][k] = stats["live_frame_kinds"].get(k, 0) + 1
         failures += fs
 
     ctx.note("oracle done at %.1fs" % ctx.elapsed())
@@ -703,6 +1057,8 @@ def replay(ctx, rp):
     inp = rp["input"]
     if inp["kind"] == "decode":
         fs = list(check_decode(impl, bytes.fromhex(inp["raw"])))
+    elif inp["kind"] == "live":
+        _, fs = check_live([bytes.fromhex(c) for c in inp["chunks"]], inp["expected"], inp["disconnecting"])
     else:
         _, fs = check_reader(bytes.fromhex(inp["malformed"]))
     sigs = sorted({f["signature"] for f in fs})
